@@ -145,7 +145,7 @@ PROPS = {
             "owns_fn": lambda op, mm, suite: suite.startswith("race:") or op in ("sched", "concdec", "concagg"),
             "race_suites": [("sched", 1.0), ("bsi", 1.0), ("bsiq", 0.5), ("bsix", 0.3), ("r64", 0.5), ("agg", 0.5)],
             "race_quick": [("sched", 0.3), ("bsi", 0.4), ("bsiq", 0.3), ("r64", 0.3)]},
-    "C13": {"suites": [("frozen", 1.0), ("frozenmis", 0.5)], "corpus": ["corpus/C10/frozen-bitmap4096.txt"],
+    "C13": {"suites": [("frozen", 1.0), ("frozenmis", 0.5), ("serall", 1.0)], "corpus": ["corpus/C10/frozen-bitmap4096.txt"],
             "theorems": ["RModel.Impl.freeze_length", "RModel.Impl.frozenView_freeze", "RModel.Impl.frozenView_no_panic",
                          "RModel.FrozenSpec.frozenSpec_freeze", "RModel.BSet.canon_ext", "RModel.Facts.frozenCookie_spec"],
             "modules": DEFAULT_MODULES + [FACTS, "RProofs.Properties.C13", "RProofs.Properties.C13Spec"],
